@@ -29,7 +29,10 @@ SPEC = Spec(
          "Start/Shutdown are recovered inside the bubble and reported with the case as replay; corpus: start,shutdown,start; two and "
          "three sharers leaving one by one. processor: the four processors created by the real factory from one config share "
          "one limiter; readings scripted via memorylimiter.ReadMemStatsFn, CheckMemLimits called directly, 4-15 consumes against a recording "
-         "downstream returning nil / error / permanent error, 1-4 items per payload; observed besides the result: the deltas of the "
+         "downstream returning nil / error / permanent error; payload shapes: 1-4 items, and ZERO-item payloads (completely empty, "
+         "resource only, resource>scope only, metric without data points / profile without samples) for all four signals; cases 0-1 are a "
+         "corpus of every signal x every shape x both modes x downstream ok/error/permanent (120 consumes each), random cases send a "
+         "zero-item payload in 1/3 of the consumes (stat zero_item_payloads_forwarded); observed besides the result: the deltas of the "
          "processor's accepted/refused counters and processorhelper's incoming/outgoing items (componenttest.Telemetry), compared with "
          "consumeFull; the clauses of each call are judged by the Lean oracle checkConsume (tr oc lines); non-trivial = both refused and "
          "accepted consumes. extension: MustRefuse after "
